@@ -1,6 +1,7 @@
 (* Model of src/fdl/active.rs (the FDL active station), src/fdl/mod.rs (FdlApplication) and the
    time arithmetic of src/time.rs it uses.  One Gallina function per Rust function, same names,
-   same order of effects; comments name the Rust lines (of the tree with the fixes F1-F3).
+   same order of effects; comments name the Rust lines (numbering of the tree before the fixes
+   F1 F2 F3 F12, commit 5ed9155; the model is of the FIXED code, deviations are marked F1/F2/F3/F12).
 
    Conventions
    * `&mut self` methods take and return the `fdl` record.  Functions that use the PHY or the
@@ -323,7 +324,12 @@ Definition check_for_bus_activity (f : fdl) (now : Z) (w : W) : fdl * W :=
 (* mark_rx, :623-626 *)
 Definition mark_rx (f : fdl) (now : Z) : fdl := mark_bus_activity (set_pending f 0) now.
 
-(* check_slot_expired, :629-649 (both branches compare alike) *)
+(* sync_pending_bytes (fix F12): pending_bytes = min(pending_bytes, bytes still buffered), called after
+   every receive attempt so that data the PHY helpers discarded does not leave the count stale *)
+Definition sync_pending_bytes (f : fdl) (w : W) : fdl :=
+  set_pending f (Nat.min (f_pending f) (length (w_rx w))).
+
+(* check_slot_expired (both branches compare alike) *)
 Definition check_slot_expired (f : fdl) (now : Z) : res (fdl * bool) :=
   let (l, f) := lba_get_or_insert f now in
   let* deadline := inst_add l (slot_time (f_p f)) in
@@ -392,6 +398,7 @@ Definition await_gap_poll_response (f : fdl) (now : Z) (w : W) (poll_address : Z
       | _ => Ok (f, note w TGapUnexpected, GprUnexpectedTelegram)
       end
   | None =>
+      let f := sync_pending_bytes f w in                                     (* F12 *)
       let* (f, expired) := check_slot_expired f now in                        (* :788 *)
       if expired then Ok (f, note w TGapNoResponse, GprNoResponse)
       else Ok (f, note w TGapAwait, GprWaiting)
@@ -503,7 +510,8 @@ Definition receive_all_telegrams (cb : fdl * W -> telegram -> bool -> res (fdl *
   let buf := w_rx w in
   let* (s, rest, _) := receive_all cb (receive_all_fuel buf) (f, w) buf in
   let (f, w) := (s : fdl * W) in
-  Ok (f, set_rx w rest).
+  let w := set_rx w rest in
+  Ok (sync_pending_bytes f w, w).                                            (* F12 *)
 
 Definition do_listen_token (f : fdl) (now : Z) (w : W) : res (fdl * W) :=
   let* _ := assert_entry DoListenToken f in
@@ -700,11 +708,13 @@ Definition do_await_data_response (f : fdl) (now : Z) (w : W) : res (fdl * W) :=
       if is_valid_response f address t then
         let* app' := a_rx ops app now (f_p f) address t in                   (* :1232 *)
         let w := log_call (set_app w idx app') (CallReceiveReply idx address t) in
+        let f := sync_pending_bytes f w in                                   (* F12 (no-op after mark_rx) *)
         let* (f, w) := trans f (note w TReplyDelivered) (fun s => transition_use_token s token_time first_app) in
         let* f := set_first_cycle_done f in                                  (* :1248-1250 *)
         Ok (f, w)
       else trans f (note w TReplyUnexpected) transition_active_idle          (* :1237 *)
   | None =>
+      let f := sync_pending_bytes f w in                                     (* F12 *)
       let* (f, expired) := check_slot_expired f now in                       (* :1255 *)
       if expired then
         let* app' := a_to ops app now (f_p f) address in                     (* :1256 *)
@@ -802,7 +812,8 @@ Definition do_check_token_pass (f : fdl) (now : Z) (w : W) : res (fdl * W) :=
     let buf := w_rx w in
     let* (s, rest, _) := receive_all (check_token_pass_telegram now) (receive_all_fuel buf) (f, w, true) buf in
     let '(f, w, first_in) := (s : fdl * W * bool) in
-    Ok (f, set_rx (if first_in then note w TCheckAwait else w) rest).
+    let w := set_rx (if first_in then note w TCheckAwait else w) rest in
+    Ok (sync_pending_bytes f w, w).                                          (* F12 *)
 
 (* ------------------------------------------------------------------------------------------ *)
 (* poll / poll_multi / poll_inner (active.rs:1424-1514)                                        *)
